@@ -29,7 +29,7 @@ Inductive body :=
 | BAddInt | BSubInt | BNegInt | BMulInt | BDivInt | BAbsInt
 | BAddDur | BSubDur | BNegDur | BMulDurInt | BMulIntDur | BDivDurInt
 | BConcat | BLenStr
-| BIntOfInt | BIntOfBool | BIntOfDur | BFloatOfFloat
+| BIntOfInt | BIntOfBool | BIntOfDur | BIntOfStr | BFloatOfFloat
 | BUnmodelled.
 
 Definition arg1 (vs : list value) (k : value -> outcome value) : outcome value :=
@@ -39,6 +39,28 @@ Definition arg2 (vs : list value) (k : value -> value -> outcome value) : outcom
 
 Definition cmp_holds (op : cmpop) (c : Z) : bool :=
   match op with OLt => c <? 0 | OLe => c <=? 0 | OGe => c >=? 0 | OGt => c >? 0 end.
+
+(* strconv.ParseInt(s, 10, 64): optional sign, then one or more decimal digits, value within int64 *)
+Fixpoint digits_val (acc : Z) (s : list Z) : option Z :=
+  match s with
+  | [] => Some acc
+  | c :: r => if (48 <=? c) && (c <=? 57) then digits_val (acc * 10 + (c - 48)) r else None
+  end.
+Definition parse_int (s : list Z) : option Z :=
+  match s with
+  | [] => None
+  | c :: r =>
+      let neg := c =? 45 in
+      let body := if (c =? 43) || (c =? 45) then r else s in
+      match body with
+      | [] => None
+      | _ => match digits_val 0 body with
+             | None => None
+             | Some un => if neg then (if un >? two63 then None else Some (- un))
+                          else (if un >=? two63 then None else Some un)
+             end
+      end
+  end.
 
 Definition apply_body (b : body) (vs : list value) : outcome value :=
   match b with
@@ -65,6 +87,7 @@ Definition apply_body (b : body) (vs : list value) : outcome value :=
   | BIntOfInt => arg1 vs (fun x => Ok x)
   | BIntOfBool => arg1 vs (fun x => Ok (VInt (if vboolean x then 1 else 0)))
   | BIntOfDur => arg1 vs (fun x => Ok (VInt (vdur x)))
+  | BIntOfStr => arg1 vs (fun x => match parse_int (vstr x) with Some n => Ok (VInt n) | None => Ok VNull end)
   | BFloatOfFloat => arg1 vs (fun x => Ok x)
   | BUnmodelled => Err E_NOT_MODELLED
   end.
@@ -106,9 +129,22 @@ Definition body_of (d : fdesc) : body :=
   else if n "int" && args_are d [i] then BIntOfInt
   else if n "int" && args_are d [prim K_BOOL] then BIntOfBool
   else if n "int" && args_are d [du] then BIntOfDur
+  else if n "int" && args_are d [s] then BIntOfStr
   else if n "float" && args_are d [prim K_FLOAT] then BFloatOfFloat
   else BUnmodelled.
 Local Close Scope string_scope.
+
+(* the kinds a body can return (None: it returns its first argument unchanged) *)
+Definition body_result_kinds (b : body) : option (list Z) :=
+  match b with
+  | BCmp _ | BEq | BNe | BIsNull | BIsNotNull | BNot => Some [K_BOOL]
+  | BAddInt | BSubInt | BNegInt | BMulInt | BDivInt | BAbsInt | BLenStr | BIntOfBool | BIntOfDur => Some [K_INT]
+  | BAddDur | BSubDur | BNegDur | BMulDurInt | BMulIntDur | BDivDurInt => Some [K_DUR]
+  | BConcat => Some [K_STR]
+  | BIntOfStr => Some [K_NULL; K_INT]
+  | BIntOfInt | BFloatOfFloat => None
+  | BUnmodelled => Some []
+  end.
 
 Definition body_modelled (b : body) : bool := match b with BUnmodelled => false | _ => true end.
 Definition desc_modelled (d : fdesc) : bool := body_modelled (body_of d).
